@@ -4,7 +4,7 @@
 using namespace drv;
 using namespace scen;
 
-struct UserSpec { std::vector<int> fg, sg, cg; int hash; bool admin, readonly; };
+struct UserSpec { std::vector<int> fg, sg, cg; int hash; bool admin, readonly; int omit; }; // omit: bit i set = the i-th group list is absent from the user's auth object
 
 static std::string group_name(int i) { return "g" + std::to_string(i); }
 static js::Value groups_json(const std::vector<int> &g, int universe)
@@ -27,8 +27,9 @@ static std::string hash_password(const std::string &pw, int method, int idx)
 static rc::Gen<UserSpec> user_gen(int universe)
 {
 	auto gs = rc::gen::resize(4, rc::gen::container<std::vector<int>>(rng(0, universe)));
-	return rc::gen::apply([](std::vector<int> f, std::vector<int> s, std::vector<int> c, int h, bool a, bool r) { return UserSpec{f, s, c, h, a, r}; },
-	                      gs, gs, gs, rc::gen::weightedElement<int>({{4, 0}, {4, 1}, {2, 2}, {2, 3}, {1, 4}, {1, 5}}), rc::gen::arbitrary<bool>(), rc::gen::arbitrary<bool>());
+	return rc::gen::apply([](std::vector<int> f, std::vector<int> s, std::vector<int> c, int h, bool a, bool r, int omit) { return UserSpec{f, s, c, h, a, r, omit}; },
+	                      gs, gs, gs, rc::gen::weightedElement<int>({{4, 0}, {4, 1}, {2, 2}, {2, 3}, {1, 4}, {1, 5}}), rc::gen::arbitrary<bool>(), rc::gen::arbitrary<bool>(),
+	                      rc::gen::weightedElement<int>({{5, 0}, {1, 1}, {1, 2}, {1, 4}, {1, 6}, {1, 3}, {1, 7}}));
 }
 
 static rc::Gen<Op> c08_op()
@@ -62,7 +63,7 @@ static rc::Gen<Scenario> c08_gen()
 			Scenario sc;
 			static const int fills[] = {0x00, 0xFF, 0xBE, 0x55, 0x01, 0x80};
 			sc.malloc_fill = fills[fill % 6];
-			if (users.empty()) users.push_back(UserSpec{{0}, {0}, {0}, 0, false, false});
+			if (users.empty()) users.push_back(UserSpec{{0}, {0}, {0}, 0, false, false, 0});
 			if (with_cred) {
 				js::Value root = js::Value::obj(), us = js::Value::obj();
 				for (size_t i = 0; i < users.size() && i < 6; i++) {
@@ -74,7 +75,9 @@ static rc::Gen<Scenario> c08_gen()
 					js::Value auth = js::Value::obj();
 					std::vector<int> fg = users[i].fg, sg = users[i].sg, cg = users[i].cg;
 					if (universe == 32 && i == 0) { fg.clear(); for (int g = 0; g < 32; g++) fg.push_back(g); } // all 32 group bits in use
-					auth.set("fetchGroups", groups_json(fg, universe)); auth.set("setGroups", groups_json(sg, universe)); auth.set("callGroups", groups_json(cg, universe));
+					if (!(users[i].omit & 1)) auth.set("fetchGroups", groups_json(fg, universe));
+					if (!(users[i].omit & 2)) auth.set("setGroups", groups_json(sg, universe));
+					if (!(users[i].omit & 4)) auth.set("callGroups", groups_json(cg, universe));
 					u.set("auth", auth);
 					us.set(name, u);
 					sc.users.push_back(name); sc.passwords.push_back(pw);
